@@ -5,7 +5,7 @@ from fractions import Fraction as F
 
 from rv.ref import ojn as rojn
 
-SLOTS = [1, 2, 3, 4, 6, 8, 12, 16, 24, 32, 48, 64, 96, 192]
+SLOTS = [1, 2, 3, 4, 6, 8, 12, 16, 24, 32, 48, 64, 96, 192, 5, 7, 9, 10, 100, 384]
 
 
 def gen_level(rng, cls, n_meas):
@@ -60,10 +60,10 @@ def gen_spec(rng, cls):
     levels = [gen_level(rng, cls if i == 0 or rng.random() < 0.7 else "plain", n_meas) for i in range(3)]
     if cls == "empty_level":
         levels[rng.randrange(3)] = []
-    hdr = dict(song_id=rng.randint(1, 99999), signature="ojn", encode_version=2.9, genre=rng.randrange(11),
-               bpm=rng.choice([120.0, 150.0, 93.5, 178.0, 200.0]), level=[rng.randint(1, 40) for _ in range(3)] + [0],
+    hdr = dict(song_id=rng.choice([rng.randint(1, 99999), -1, 2**31 - 1]), signature="ojn", encode_version=2.9, genre=rng.choice([rng.randrange(11), -1]),
+               bpm=rng.choice([120.0, 150.0, 93.5, 178.0, 200.0]), level=[rng.choice([rng.randint(1, 40), -1, 32767]) for _ in range(3)] + [0],
                event_count=[sum(len(s) for _, _, s in l) for l in levels], note_count=[rng.randint(0, 999) for _ in range(3)],
-               measure_count=[n_meas] * 3, package_count=[len(l) for l in levels], old_encode_version=29, old_song_id=rng.randint(0, 999),
+               measure_count=[n_meas] * 3, package_count=[len(l) for l in levels], old_encode_version=rng.choice([29, -1, 0]), old_song_id=rng.choice([rng.randint(0, 999), -2, -32768, 32767]),
                old_genre="", bmp_size=0, old_file_version=0, title=rng.choice(["Fly Magpie", "a b c", "T", "Song (Remix) 2"]),
                artist=rng.choice(["Artist", "DJ X", ""]), creator=rng.choice(["noter", "me"]), ojm_file=rng.choice(["o2ma178.ojm", "x.ojm"]),
                cover_size=0, duration=[rng.randint(30, 300) for _ in range(3)], note_offset=[300, 0, 0], cover_offset=0)
